@@ -58,10 +58,12 @@ impl Spelling {
         if v < 0 {
             return format!("{}", v);
         }
+        // the radix prefix follows the case of the keywords (0X1F / 0B101 are accepted spellings too)
+        let up = self.case == Case::Upper;
         match self.radix {
             Radix::Dec => format!("{}", v),
-            Radix::Hex => format!("0x{:X}", v),
-            Radix::Bin => format!("0b{:b}", v),
+            Radix::Hex => if up { format!("0X{:X}", v) } else { format!("0x{:x}", v) },
+            Radix::Bin => format!("{}{:b}", if up { "0B" } else { "0b" }, v),
         }
     }
     pub fn comma(&self) -> &'static str {
